@@ -475,9 +475,12 @@ static void _client_query_status_reply_nointerp(Client * c, bool error)
 
     itr = arglist_iterator_create(c->cmd->arglist);
     while ((arg = arglist_next(itr))) {
-        if (arg->val)
+        if (arg->val) {
+            /* the value is device text shown inside one protocol line:
+             * keep its first line only (cf. _process_setresult) */
+            arg->val[strcspn(arg->val, "\r\n")] = '\0';
             _client_printf(c, CP_INFO_XSTATUS, arg->node, arg->val);
-        else
+        } else
             hostlist_push(hl, arg->node);
     }
     arglist_iterator_destroy(itr);
